@@ -1,7 +1,8 @@
 // Package c04 is the harness for property C04: it compiles generated lambda ASTs with the REAL
 // stateful.NewExpression and evaluates them over HISTORIES of scopes with changing field types through
 // Expression.Eval, Type+EvalBool (what EvalPredicate does after fillScope), the direct EvalX methods and
-// Type, on the expression itself and on CopyReset copies, and prints what the implementation answered.
+// Type, on the expression itself and on CopyReset copies, and prints what the implementation answered. The ASTs
+// contain lambda nodes (LAM: *ast.LambdaNode inside the expression, EvalLambdaNode) at any position.
 // External library calls (regex matching, math/strings/strconv/time functions) are computed here with the
 // Go library directly — never through kapacitor — and carried in the op lines as oracle tables.
 package c04
@@ -125,7 +126,7 @@ var binOps = map[string]ast.TokenType{
 
 // ex is the harness's own expression tree.
 type ex struct {
-	kind string // L R U B F FM
+	kind string // L R U B F FM LAM
 	op   string // operator / function name / reference name
 	val  interface{}
 	kids []*ex
@@ -145,6 +146,8 @@ func (e *ex) tokens() []string {
 		return append(t, e.kids[1].tokens()...)
 	case "FM":
 		return []string{"FM", e.op}
+	case "LAM":
+		return append([]string{"LAM"}, e.kids[0].tokens()...)
 	default:
 		t := []string{"F", e.op, strconv.Itoa(len(e.kids))}
 		for _, k := range e.kids {
@@ -177,6 +180,9 @@ func parseEx(t []string) (*ex, []string, error) {
 		return &ex{kind: "B", op: t[1], kids: []*ex{l, r}}, rest, err
 	case "FM":
 		return &ex{kind: "FM", op: t[1]}, t[2:], nil
+	case "LAM":
+		k, rest, err := parseEx(t[1:])
+		return &ex{kind: "LAM", kids: []*ex{k}}, rest, err
 	case "F":
 		n, _ := strconv.Atoi(t[2])
 		e := &ex{kind: "F", op: t[1]}
@@ -222,6 +228,9 @@ func (e *ex) node() ast.Node {
 		return &ast.UnaryNode{Operator: op, Node: e.kids[0].node()}
 	case "B":
 		return &ast.BinaryNode{Operator: binOps[e.op], Left: e.kids[0].node(), Right: e.kids[1].node()}
+	case "LAM":
+		// a lambda node INSIDE the expression: what `var w = lambda: …` used in another lambda leaves in the AST
+		return &ast.LambdaNode{Expression: e.kids[0].node()}
 	case "FM":
 		args := []ast.Node{}
 		for i := 0; i < 5; i++ {
@@ -262,6 +271,8 @@ func obsValue(v interface{}, err error) string {
 // leafVal: the value of a leaf argument (literal or reference) under the bindings; ok=false when undefined.
 func leafVal(e *ex, bs []binding) (interface{}, bool) {
 	switch e.kind {
+	case "LAM": // a lambda around a leaf is that leaf's value
+		return leafVal(e.kids[0], bs)
 	case "L":
 		return e.val, true
 	case "R":
@@ -411,9 +422,6 @@ func (o evalOp) line() string {
 // execCase runs the lines of one case (observations stripped) and returns them with fresh observations and
 // fresh oracle lines.
 func execCase(lines []string) (out []string) {
-	if len(lines) > 0 && strings.HasPrefix(lines[0], "lam ") {
-		return execLamCase(lines)
-	}
 	var e *ex
 	var insts = map[int]stateful.Expression{}
 	seen := map[string]bool{}
@@ -680,47 +688,4 @@ func Run(args []string) int {
 		out.Flush()
 	}
 	return 0
-}
-
-// execLamCase: `lam <k>` then `lev <inst>` lines — the expression `(lambda: count()) > k` (a lambda node nested in an
-// expression, as a lambda variable used inside another lambda produces) asked through EvalBool by CopyReset copies.
-func execLamCase(lines []string) (out []string) {
-	k, _ := strconv.ParseInt(strings.Fields(lines[0])[1], 10, 64)
-	node := &ast.BinaryNode{Operator: ast.TokenGreater,
-		Left:  &ast.LambdaNode{Expression: &ast.FunctionNode{Type: ast.GlobalFunc, Func: "count"}},
-		Right: &ast.NumberNode{IsInt: true, Int64: k}}
-	out = append(out, "lam "+strconv.FormatInt(k, 10))
-	se, err := stateful.NewExpression(node)
-	if err != nil {
-		return append(out, "bad compile")
-	}
-	insts := map[int]stateful.Expression{}
-	for _, raw := range lines[1:] {
-		line := raw
-		if i := strings.Index(line, " => "); i >= 0 {
-			line = line[:i]
-		}
-		t := strings.Fields(line)
-		if len(t) != 2 || t[0] != "lev" {
-			continue
-		}
-		id, _ := strconv.Atoi(t[1])
-		if insts[id] == nil {
-			insts[id] = se.CopyReset()
-		}
-		func() {
-			defer func() {
-				if r := recover(); r != nil {
-					out = append(out, line+" => panic")
-				}
-			}()
-			sc := stateful.NewScope()
-			if _, err := insts[id].Type(sc); err != nil {
-				out = append(out, line+" => err")
-				return
-			}
-			out = append(out, line+" => "+obsValue(insts[id].EvalBool(sc)))
-		}()
-	}
-	return out
 }
